@@ -20,6 +20,9 @@ PROGRAMS = {
     "high": ["*=0xC00000\nstart:\nlda #K\n.dl start\n*=0xC1FFFE\n.dw 0x1234\n.dw 0x5678\n", "*=0x400010\n.db K\nhere:\n.dl here\n"],
 }
 ROM = {"low": "low_rom", "low2": "low_rom_2", "high": "high_rom"}
+# one contiguous run of more than two full IPS records (> 0x1FFFE bytes, no *= in between): the patch needs three records
+BIG = {"low": "*=0x008000\nlda #K\n.incbin '{BIG}'\nend:\n.dl end\n", "low2": "*=0x808000\nlda #K\n.incbin '{BIG}'\n", "high": "*=0xC00000\nlda #K\n.incbin '{BIG}'\n.db 1\n"}
+BIG_LEN = 2 * 0xFFFF + 5
 
 
 def cli(args, cwd):
@@ -30,7 +33,12 @@ def cli(args, cwd):
 def check(case):
     wd = tempfile.mkdtemp(prefix="vfC12")
     try:
-        src = PROGRAMS[case["mapping"]][case["prog"]]
+        if case["prog"] == "big":
+            big = os.path.join(wd, "big.bin")
+            open(big, "wb").write(bytes((i * 7 + (i >> 8)) & 0xFF for i in range(BIG_LEN)))
+            src = BIG[case["mapping"]].replace("{BIG}", big)
+        else:
+            src = PROGRAMS[case["mapping"]][case["prog"]]
         k = case["k"]
         ref = assemble(src, rom_type=ROM[case["mapping"]], defines={"K": k})
         if ref["status"] != "ok":
@@ -54,7 +62,8 @@ def check(case):
                 recs, end = ips_format.parse(raw)
             except ips_format.IpsFormatError as e:
                 return f"CLI patch is not well formed: {e}"
-            if [(a, b) for a, b in recs] != [(a + shift, b) for a, b in blocks]:
+            split = [(a + shift + k, b[k:k + 0xFFFF]) for a, b in blocks for k in range(0, len(b), 0xFFFF)]  # a block longer than one record is split at 65535
+            if [(a, b) for a, b in recs] != split:
                 return f"IPS records {[(hex(a), b.hex()[:12]) for a, b in recs]} differ from in-memory blocks {[(hex(a + shift), b.hex()[:12]) for a, b in blocks]}"
             got_img = ips_format.apply(recs)
         else:
@@ -107,9 +116,15 @@ def gen(tier, rng):
                        "extra_define": rng.random() < 0.5}
 
 
+def gen_big(tier, rng):
+    for mapping in (("low", "low2", "high") if tier == "thorough" else (rng.choice(["low", "low2", "high"]),)):
+        for fmt, copier in (("ips", False), ("ips", True), ("sfc", False)):
+            yield {"fmt": fmt, "mapping": mapping, "copier": copier, "prog": "big", "k": 0x12, "kstyle": "hex", "extra_define": False}
+
+
 def run(tier, seed):
     rng = random.Random(seed)
-    cases = list(gen(tier, rng))
+    cases = list(gen(tier, rng)) + list(gen_big(tier, rng))
     failures = []
     for c in cases:
         f = check(c)
@@ -120,7 +135,7 @@ def run(tier, seed):
         failures.append({"ident": "bounded/symbol-file", "script": "b_C12.py", "payload": {"symbols": True}, "observed": f})
     return {"evaluations": len(cases) + 1, "distinct_nontrivial": len({str(c) for c in cases}) + 1,
             "rule": "every point of format x mapping x copier-header with -D defines in decimal/hex/binary, programs valid under the mapping (bank "
-                    "crossing, two blocks), real CLI in a subprocess vs in-memory API blocks; IPS parsed by the independent reader; SFC image == blocks "
+                    "crossing, two blocks, one contiguous run of more than two full IPS records through .incbin), real CLI in a subprocess vs in-memory API blocks; IPS parsed by the independent reader; SFC image == blocks "
                     "applied to an empty image; plus one symbol-file program with labels in root/block/named/loop/macro scopes and RAM",
             "samples": cases[:2], "failures": failures}
 
